@@ -3394,7 +3394,10 @@ def cartesian(
                             + ak._util.exception_suffix(__file__)
                         )
                     nextlayout = ak._util.recursively_apply(
-                        layout, getgetfunction1(inside), pass_depth=True
+                        layout,
+                        getgetfunction1(inside),
+                        pass_depth=True,
+                        numpy_to_regular=True,
                     )
                     return lambda: newaxis(nextlayout, outside)
                 else:
@@ -3407,7 +3410,7 @@ def cartesian(
                 x, allow_record=False, allow_other=False
             )
             return ak._util.recursively_apply(
-                layout, getgetfunction2(i), pass_depth=True
+                layout, getgetfunction2(i), pass_depth=True, numpy_to_regular=True
             )
 
         toflatten = []
